@@ -40,7 +40,7 @@ def build(x):
     src = x.src(F)
     m = re.search(r'const MAX_RETRY: u8 = (\d+);', src.text)
     if not m:
-        raise Exception('MAX_RETRY not found')
+        from engine.rsx import ScanError; raise ScanError('MAX_RETRY not found')
     pieces = [PRELUDE, f"const MAX_RETRY: u8 = {m.group(1)};   // extracted from {F}", x.enum(FO, 'StreamElement'), x.enum(FC, 'TryRecvError'), x.enum(FC, 'RecvError')]
     st = x.struct(F, 'ChannelSource'); st.text = '#[verifier::reject_recursive_types(Out)]\n' + st.text
     pieces.append(st)
